@@ -89,6 +89,52 @@ def deletion_guard(ctx, rule):
     return mt, rm, og
 
 
+def seqno_map_loop_idiom(ctx, bm, og):
+    """idiom A: `for keyspace in keyspaces.values() { if let Some(lsn) = ..get_highest_memtable_seqno() { push(..) } }`"""
+    vals = [b for b, t in bm.calls() if A.cname(t).endswith("HashMap::<K, V, S, A>::values") and og.of_operand(t["args"][0]).k == "param"]
+    hm = [b for b, t in bm.calls() if A.cname(t).endswith("::get_highest_memtable_seqno")]
+    push = [b for b, t in bm.calls() if A.cname(t).endswith("Vec::<T, A>::push")]
+    ok = bool(vals) and bool(hm) and bool(push) and all(A.in_cycle(bm, x) for x in hm + push)
+    ctx.ob("R-C10.3", bm, "reads-memtable-seqno-of-every-keyspace", ok, "loops over keyspaces.values() reading get_highest_memtable_seqno" if ok else "build_seqno_map does not visit every keyspace / does not read the memtable seqno")
+    # no keyspace is skipped: inside the loop every path from one `next()` to the following one reads the memtable
+    # seqno, and the only way around the push is that read answering None (nothing of this keyspace in any memtable)
+    nx = [b for b, t in bm.calls() if A.cname(t).endswith("::next") and "Iterator" in (A.cname(t) + (t.get("callee") or "")) and A.in_cycle(bm, b)]
+    ok_skip = False
+    detail = "no iterator loop found in build_seqno_map"
+    if nx and hm and push:
+        body = [s_ for s_ in bm.succs(nx[0])]
+        r = A.reach(bm, body, avoid=hm)
+        round_trip = nx[0] in r
+        rf_targets = []
+        sw = A.switch_after_call(bm, hm[0])
+        some_edges = []
+        if sw is not None:
+            _, labels = A.switch_info(bm, sw)
+            some_edges = [tg for tg, names in labels.items() if "Some" in names]
+        r2 = A.reach(bm, some_edges, avoid=push) if some_edges else {nx[0]}
+        skip_after = nx[0] in r2
+        ok_skip = not round_trip and bool(some_edges) and not skip_after
+        detail = "every loop iteration reads get_highest_memtable_seqno, and a Some(lsn) always becomes a watermark" if ok_skip else \
+            ("a keyspace can be skipped before its memtable seqno is even read (a conditional `continue`): it gets no watermark, and the sealed journal holding the only durable copy of its sealed-but-unflushed memtable is deleted as soon as the other keyspaces have flushed" if round_trip
+             else "a keyspace whose memtables hold data (Some(lsn)) can still be left without a watermark")
+    ctx.ob("R-C10.3", bm, "no-keyspace-skipped-when-capturing-watermarks", ok_skip, detail)
+    okl = False
+    for blk in bm.blocks:
+        for st in blk["s"]:
+            rv = st["rv"]
+            if rv["k"] == "agg" and rv.get("adt") == "journal::manager::EvictionWatermark":
+                d = dict(zip(rv["fields"], rv["ops"]))
+                lsn = og.of_operand(d["lsn"])
+                ksp = og.of_operand(d["keyspace"])
+                okl = any(x.k == "call" and x.a[0].endswith("::get_highest_memtable_seqno") for x in A.walk(lsn))
+                # same keyspace handle for lsn source and stored handle
+                src = [x for x in A.walk(lsn) if x.k == "call" and x.a[0].endswith("::get_highest_memtable_seqno")]
+                if src:
+                    a = A.tkey(src[0].a[1][0])
+                    okl = okl and A.tkey(ksp) in a
+    ctx.ob("R-C10.3", bm, "watermark-pairs-keyspace-with-its-own-seqno", okl, "EvictionWatermark{keyspace: k, lsn: k.tree.get_highest_memtable_seqno()}" if okl else "watermark lsn is not the memtable seqno of the keyspace it is stored for")
+
+
 def run(ctx):
     F = ctx.F
     cg = ctx.cg
@@ -147,26 +193,49 @@ def run(ctx):
     bm = ctx.fn("supervisor::Supervisor::build_seqno_map", "R-C10.3")
     if bm:
         og = ctx.og(bm)
-        vals = [b for b, t in bm.calls() if A.cname(t).endswith("HashMap::<K, V, S, A>::values") and og.of_operand(t["args"][0]).k == "param"]
-        hm = [b for b, t in bm.calls() if A.cname(t).endswith("::get_highest_memtable_seqno")]
-        push = [b for b, t in bm.calls() if A.cname(t).endswith("Vec::<T, A>::push")]
-        ok = bool(vals) and bool(hm) and bool(push) and all(A.in_cycle(bm, x) for x in hm + push)
-        ctx.ob("R-C10.3", bm, "reads-memtable-seqno-of-every-keyspace", ok, "loops over keyspaces.values() reading get_highest_memtable_seqno" if ok else "build_seqno_map does not visit every keyspace / does not read the memtable seqno")
-        okl = False
-        for blk in bm.blocks:
-            for st in blk["s"]:
-                rv = st["rv"]
-                if rv["k"] == "agg" and rv.get("adt") == "journal::manager::EvictionWatermark":
-                    d = dict(zip(rv["fields"], rv["ops"]))
-                    lsn = og.of_operand(d["lsn"])
-                    ksp = og.of_operand(d["keyspace"])
-                    okl = any(x.k == "call" and x.a[0].endswith("::get_highest_memtable_seqno") for x in A.walk(lsn))
-                    # same keyspace handle for lsn source and stored handle
-                    src = [x for x in A.walk(lsn) if x.k == "call" and x.a[0].endswith("::get_highest_memtable_seqno")]
-                    if src:
-                        a = A.tkey(src[0].a[1][0])
-                        okl = okl and A.tkey(ksp) in a
-        ctx.ob("R-C10.3", bm, "watermark-pairs-keyspace-with-its-own-seqno", okl, "EvictionWatermark{keyspace: k, lsn: k.tree.get_highest_memtable_seqno()}" if okl else "watermark lsn is not the memtable seqno of the keyspace it is stored for")
+        HM = "::get_highest_memtable_seqno"
+        ret = og.of_local(0)
+        chain = [x for x in A.walk(ret) if x.k == "call"]
+        adaptor = [x for x in chain if x.a[0].rsplit("::", 1)[-1] in ("filter_map", "flat_map", "map")]
+        if adaptor and any(x.a[0].endswith("::collect") for x in chain):
+            # ---- idiom B: keyspaces.values().filter_map(|k| k.tree.get_highest_memtable_seqno().map(|lsn| Watermark{..})).collect()
+            names = [x.a[0].rsplit("::", 1)[-1] for x in chain]
+            dropping = [n for n in names if n in ("filter", "skip", "skip_while", "take", "take_while", "step_by", "rev_skip", "nth")]
+            src_ok = any(x.a[0].endswith("HashMap::<K, V, S, A>::values") and x.a[1] and x.a[1][0].k == "param" for x in chain)
+            cls = [F.fns[c.a[0]] for x in adaptor for c in x.a[1] if c.k == "closure" and c.a[0] in F.fns]
+            ok = src_ok and not dropping and bool(cls)
+            ok_skip = ok
+            okl = False
+            for cl in cls:
+                hm = [b for b, t in cl.calls() if A.cname(t).endswith(HM)]
+                # every path through the closure reads the memtable seqno
+                r = A.reach(cl, [0], avoid=hm)
+                if not hm or [x for x in cl.return_blocks() if x in r]:
+                    ok_skip = False
+                # the closure's result is that read, mapped (Some(lsn) -> Some(watermark)): no other way to None
+                rt = ctx.og(cl).of_local(0)
+                mapped = [x for x in A.walk(rt) if x.k == "call" and x.a[0].endswith("Option::<T>::map")]
+                direct = rt.k == "call" and rt.a[0].endswith("Option::<T>::map") and rt.a[1] and rt.a[1][0].k == "call" and rt.a[1][0].a[0].endswith(HM)
+                if not direct:
+                    ok_skip = False
+                for inner in [F.fns[c.a[0]] for x in mapped for c in x.a[1] if c.k == "closure" and c.a[0] in F.fns]:
+                    iog = ctx.og(inner)
+                    for blk in inner.blocks:
+                        for st in blk["s"]:
+                            rv = st["rv"]
+                            if rv["k"] == "agg" and rv.get("adt") == "journal::manager::EvictionWatermark":
+                                d = dict(zip(rv["fields"], rv["ops"]))
+                                lsn = iog.of_operand(d["lsn"])
+                                ksp = iog.of_operand(d["keyspace"])
+                                # lsn is the closure's argument (the Some payload), keyspace is the captured handle the seqno was read from
+                                recv = A.tkey(rt.a[1][0].a[1][0]) if direct else ""
+                                okl = lsn.k == "param" and any(x.k == "field" and str(x.a[1]).lstrip("*") == "keyspace" for x in A.walk(ksp)) and "P2" in recv
+            ctx.ob("R-C10.3", bm, "reads-memtable-seqno-of-every-keyspace", ok, "keyspaces.values() mapped through a closure reading get_highest_memtable_seqno, no dropping adaptor" if ok else "build_seqno_map does not visit every keyspace (adaptors: %s)" % names)
+            ctx.ob("R-C10.3", bm, "no-keyspace-skipped-when-capturing-watermarks", ok_skip,
+                   "every keyspace's memtable seqno is read, and a Some(lsn) always becomes a watermark" if ok_skip else "a keyspace can be left without a watermark although its memtables hold data (the mapping closure can answer None without / despite the memtable seqno)")
+            ctx.ob("R-C10.3", bm, "watermark-pairs-keyspace-with-its-own-seqno", okl, "EvictionWatermark{keyspace: k, lsn: k.tree.get_highest_memtable_seqno()}" if okl else "watermark lsn is not the memtable seqno of the keyspace it is stored for")
+        else:
+            seqno_map_loop_idiom(ctx, bm, og)
     rjf = ctx.fn(JM + "::rotate_journal", "R-C10.3")
     if rjf:
         og = ctx.og(rjf)
